@@ -9,7 +9,7 @@ RULE = ('random worlds with rich outcomes (several events per test, failing subt
         'setUp/tearDown failures), verbosity 0..2, sequential / resumed / -j runs, every outcome kind under --repeat 2/3; expected numbers and names are recomputed from the '
         "world's own trace; non-trivial = at least one failure or error and one skip or two layers")
 TRUSTED_BASE = COMMON_TRUSTED + ['expected counts per test come from the unittest protocol model applied to the scripted behaviour; which tests ran comes from the trace']
-ASSUMPTIONS = COMMON_ASSUMPTIONS + ['statement evaluated without -x; with --repeat n the "tests run" total is taken as the count of one iteration of each layer '
+ASSUMPTIONS = COMMON_ASSUMPTIONS + ['with -x the statement is evaluated for worlds without decorator-skipped tests and without --repeat; with --repeat n the "tests run" total is taken as the count of one iteration of each layer '
                                     '(documented upstream output, see DESIGN §6 #15); failures, errors, skips, listed names and the per-iteration '
                                     'summaries are evaluated over all iterations']
 
@@ -23,7 +23,17 @@ def generate(rng, tier, rep):
             opts.append('-j%d' % rng.choice([2, 3]))
         if rng.random() < 0.5:
             opts.append(rng.choice(['-v', '-vv']))
+        if rng.random() < 0.15 and not any(o.startswith('-j') for o in opts):
+            # (sequential runs only: with -j N which layers are still started after the first problem is a race)
+            # the run stops at the first problem: what was executed until then is counted and listed like anything else —
+            # including the later problems of the very test that stopped the run (further failing subtests, a tearDown error)
+            opts.append('-x')
         c = worldcase.gen_world(rng, opts=opts)
+        if '-x' in opts:
+            for T in c['tests']:
+                if T.pop('deco_skip', None) and rng.random() < 0.5:
+                    T['subs'] = [rng.choice(['fail', 'error', 'ok']) for _ in range(3)]
+            worldcase.sync_twins(c)
         for T in c['tests']:
             if rng.random() < 0.12 and not T.get('deco_skip'):
                 # a test (or a library it uses) writes a line that ends in three numbers to the process's stderr: in a layer
@@ -82,4 +92,4 @@ LEVEL_TEXT = ('Reported ran / failures / errors / skipped, the per-layer summary
               'sequential, resumed and parallel mode.'
               ' Whole-run theorem (RunLedger.v): reported lists and counts are the exact ledger of the events of all processes (skips: parent only, open finding).')
 LEVEL_NOTE = ('Open finding: skips recorded in subprocess layers are not included in the totals (classified by Obs.c12_skip_finding). '
-              '-x is outside the evaluated statement (the model still covers it); under --repeat n the "tests run" total is one iteration\'s count.')
+              'with -x the statement is evaluated when no test is skipped by decorator and the run is not repeated; under --repeat n the "tests run" total is one iteration\'s count.')
